@@ -124,9 +124,10 @@ Proof. do 4 eexists. vm_compute. reflexivity. Qed.
    copy into another message (models Value/EqualM.v, Value/CanonM.v, Core/Builder.v).  Lemmas in
    Value/EqualSafe.v, Value/CanonSafe.v, Core/CopySafe.v.  Additional standing assumptions: the
    destination of a copy satisfies the builder invariant and has segments of at most
-   maxSegmentSize bytes ([dok]); copied pointers have a reader-made shape ([shape_ok]: every
-   pointer handed out by readPtr has it, C01_reader_ptr_shape; a struct taken from an element
-   of a 1/2/4-byte list does NOT, and writePtr panics on it: C01_copy_unaligned_refuted). *)
+   maxSegmentSize bytes ([dok]); copied LIST pointers have a reader-made shape ([shape_ok]: every
+   pointer handed out by readPtr has it, C01_reader_ptr_shape; structs need none in the
+   repaired code; as found, a struct taken from an element of a 1/2/4-byte list makes writePtr
+   panic: C01_copy_unaligned_refuted). *)
 From CV Require Import Value.EqualM Value.EqualSafe Value.CanonM Value.CanonSafe Core.Builder Core.CopySafe.
 
 (* capnp.Equal on one or two hostile messages: any fuel, any limits, any two well-formed
@@ -172,8 +173,8 @@ Theorem C01_reader_ptr_shape : forall strict m rl sid s paddr depth q,
 Proof. exact reader_ptr_shape. Qed.
 Print Assumptions C01_reader_ptr_shape.
 
-(* sensitivity / findings: the unrestricted copy statement is false on the code as it is
-   (repo 38ec570), and the as-found canonicalList panics (F04) *)
+(* sensitivity / findings: as found (repo 38ec570, write_ptr_asfound) copying a byte-list
+   element panics, the repaired writePtr copies it; the as-found canonicalList panics (F04) *)
 Example C01_copy_unaligned_refuted :
   let c := mkCfg 0 0 true true in
   msg_ok unaligned_msg /\
@@ -182,7 +183,8 @@ Example C01_copy_unaligned_refuted :
     fst (struct_ptr c unaligned_msg 1000 r 0) = Ok l /\
     list_struct true l 0 = Ok e /\ wf_ptr unaligned_msg e /\ p_size e = mkOS 1 0 /\
     new_message ASingle [] 0 = Ok m0 /\ dok m0 /\
-    set_root 8 (mkW m0 unaligned_msg 1000) InSrc e = Panic.
+    write_ptr_asfound 8 true (mkW m0 unaligned_msg 1000) 0 0 InSrc e false = Panic /\
+    exists w', write_ptr 8 true (mkW m0 unaligned_msg 1000) 0 0 InSrc e false = Ok w'.
 Proof. exact copy_unaligned_refuted. Qed.
 
 Example C01_canon_complist_refuted :
